@@ -183,8 +183,7 @@ def run(ctx: Context, rep) -> None:
                        loc=fn.loc(node), where=fn.qualname,
                        construct=short(node, 70),
                        message="only append is allowed on the record lists")
-    if n < 3:
-        raise AnalysisError(f"C08.subscript: {n} record-list writes, floor 3")
+    rep.floor("C08.subscript", n, 3, "instances")
 
     # -- C08.dedup / recursion ------------------------------------------------------------
     rep.rule(
